@@ -83,11 +83,11 @@ def _c19_extra(ctx):
 
 plan(Plan(
     id="C19", title="Every tag function creates its own element with the documented default",
-    contracts=[], extra=_c19_extra, oracle="c19", design_ref="§7 C19",
+    contracts=[CORE + "Tag.__init__"], extra=_c19_extra, oracle="c19", design_ref="§7 C19",
     claim="exhaustive over all tag functions, full-domain over their arguments: each loop-free body is the constructor call term itself "
           "(structural identity), defaults checked against the project's inline classification, re-exports by import identity",
     technique="loop-free pass-through obligations decided by structural identity of the symbolic result; finite side conditions on constants",
-    level_note="assumes Python call semantics for *args/**kwargs forwarding (A4); Tag.__init__'s own type check of _add_ws is covered by the bounded oracle here and by C15's contract",
+    level_note="assumes Python call semantics for *args/**kwargs forwarding (A4); Tag.__init__ is verified against its contract (raises TypeError unless _add_ws is a bool; fields set from the arguments)",
 ))
 
 
@@ -150,4 +150,27 @@ plan(Plan(
                  "slicing (`tl[i:j]`) and repetition (`tl * n`) go through UserList.__getitem__/__mul__ -> TagList(list): covered by Lean C14_nodes_ofNodes (re-normalising stored nodes is the identity) "
                  "and by the bounded oracle, not by an R-obligation on the stdlib methods",
                  "objects of unsupported type (CBad) have none of tagify/_repr_html_ and are not Sequences (A2)"],
+))
+
+
+plan(Plan(
+    id="C15", title="Attribute names and values are normalised and merged in argument order",
+    contracts=TAD_FNS + [TAD_INIT, CORE + "Tag.__init__", CORE + "consolidate_attrs"] + HTML_FNS[4:],
+    lean={"HV.AttrFacts": ["mergeCall_nodup", "aupdate_nil_mergeCall", "C15_normName_spec", "C15_normName_no_underscore", "C15_normName_idem",
+                           "C15_callDicts_pairs", "C15_order_first_appearance", "C15_merged_value", "C15_join_plain", "C15_update_replaces",
+                           "C15_update_order", "C15_setitem_replaces", "C15_setitem_skips_none", "C15_consolidate_rebuild", "C15_keys_normalised"]},
+    gconds=["G:TEXT_TABLE:keysFresh", "G:ATTR_TABLE:keysFresh"], oracle="c15", design_ref="§7 C15",
+    assumptions=["floats are opaque atoms with an uninterpreted str(); values of unsupported type raise TypeError (VOther)",
+                 "the children half of Tag(...) is C14's contract (nodes/bad), used here through TagList.__init__"],
+))
+plan(Plan(
+    id="C16", title="Class/style helpers and css() act as token-set and declaration algebra",
+    contracts=[CORE + "Tag." + m for m in ("add_class", "remove_class", "has_class", "add_style")] + [UTIL + "css", CORE + "TagAttrDict.update"],
+    lean={"HV.C16": ["splitWs_toks_ok", "splitWs_joinSp", "splitWs_append_tok", "splitWs_prepend_tok", "C16_add_class_tokens", "C16_has_after_add",
+                     "C16_add_keeps_others", "C16_has_class_membership", "C16_add_class_frame", "C16_remove_class_tokens", "C16_remove_drops_attr",
+                     "C16_not_has_after_remove", "classOnce_of_nodup", "C16_css_shape", "C16_css_none_iff", "C16_css_accepted_by_add_style", "C16_cssKey_shape"]},
+    oracle="c16", design_ref="§7 C16",
+    assumptions=["str.lower is modelled on ASCII letters only (css keys with non-ASCII capitals are outside the model)",
+                 "the remove_class theorems assume the attribute map has one `class` entry (classOnce), which holds for every real dict (classOnce_of_nodup)",
+                 "add_class on an HTML()-marked class value stores the token attribute-escaped (C03): the token theorems are stated for plain class values"],
 ))
